@@ -2820,7 +2820,23 @@ fn gen_judge(rng: &mut Rng, lines: usize) -> Vec<String> {
             _ => {
                 let n = rng.below(3);
                 let seen: Vec<u32> = (0..n).map(|_| rng.below(3) as u32).collect();
-                out.push(format!("judge sup {} {} {}", rng.pick(&["0", "1", "2"]), rng.pick(&["S", "E", "N", "Q"]), join_ids(&seen)));
+                out.push(format!(
+                    "judge {} {} {} {}",
+                    rng.pick(&["sup", "supp"]),
+                    rng.pick(&["0", "1", "2"]),
+                    rng.pick(&["S", "E", "N", "Q"]),
+                    join_ids(&seen)
+                ));
+                out.push(format!("judge respawn {} {}", rng.below(4), rng.pick(&["0", "0", "1", "x"])));
+                let iv = |rng: &mut Rng| {
+                    let a = rng.below(20);
+                    format!("{a}:{}", a + rng.below(8))
+                };
+                let ivs: Vec<String> = (0..rng.below(3)).map(|_| iv(rng)).collect();
+                let ms: Vec<String> = (0..rng.range(1, 3)).map(|_| iv(rng)).collect();
+                out.push(format!("judge gwindow {} {}", if ivs.is_empty() { "-".into() } else { ivs.join(",") }, ms.join(",")));
+                out.push(format!("judge gsink {} {}", rng.below(3), rng.below(3)));
+                out.push(format!("judge calls {} 1,2 1:{} 3:{}", rng.pick(&["X", "L"]), rng.pick(&["r", "h", "p"]), rng.pick(&["h", "c", "q"])));
             }
         }
     }
